@@ -16,6 +16,10 @@ import numpy as np
 import core
 from core import Fraction, frac, rat
 
+MODELLED = ["evo/core/trajectory.py:PosePath3D.scale", "evo/core/trajectory.py:PosePath3D.transform",
+            "evo/core/trajectory.py:PosePath3D.align", "evo/core/trajectory.py:PosePath3D.align_origin",
+            "evo/main_ape.py:ape", "evo/main_rpe.py:rpe", "evo/core/lie_algebra.py:se3", "evo/core/lie_algebra.py:sim3",
+            "evo/core/lie_algebra.py:se3_inverse", "evo/core/geometry.py:umeyama_alignment"]
 EPS_CERT = Fraction(1, 2 ** 30)
 U = 2.0 ** -53
 LD = np.longdouble
@@ -147,9 +151,23 @@ def gen_cases(ctx):
         shape = r.choice(["generic", "generic", "planar", "offset"])
         noise = r.choice([0.0, 1e-6, 1e-3, 0.01, 0.1, 0.5, 1.0])
         ratio = r.choice([1.0, logu(r, 1e-2, 1e2)])
+        drift = op != "origin" and r.random() < 0.3
+        if drift:
+            N = max(N, 6)
         ref, est = gen_pair(r, N, shape, noise, ratio)
         storage = r.choice(["se3", "quat", "se3+cache"])
         nsel = r.choice([-1, -1, r.randint(3, N), r.randint(3, N), N, N + r.randint(1, 5)])
+        if drift:
+            # the first n0 pairs fit (up to the noise level), afterwards the estimate drifts away strongly:
+            # the optimum over the first n0 pairs differs from the optimum over all pairs
+            nsel = r.randint(3, N - 2)
+            ext_e = max(abs(v) for p in est for v in (p[3], p[7], p[11])) + 1.0
+            dvec = [r.gauss(0, 1) for _ in range(3)]
+            for i in range(nsel, N):
+                f = 0.5 * (i - nsel + 1) / (N - nsel) + 0.3
+                for j, col in enumerate((3, 7, 11)):
+                    est[i][col] += f * ext_e * dvec[j]
+            shape = shape + "+drift"
         case = {"kind": shape, "op": op, "ref": ref, "est": est, "storage": storage, "noise": noise, "ratio": ratio, "n": nsel}
         if op == "align":
             case["mode"] = r.choice(["se3", "sim3", "scale"])
@@ -533,6 +551,24 @@ def judge(ctx, case, impl, outs, extra):
                 ctx.fail(case, "recorded-matrix-maps-estimate", f"recorded matrix block has determinant {det}")
             else:
                 check_moved("recorded-matrix-maps-estimate", M[:3, :3], M[:3, 3], det ** (1.0 / 3.0))
+                # "determined from the first n pose pairs only when n is given", decided on the recorded matrix itself
+                # (independent optimum over the first k pairs of the *unaligned* inputs, k by Python slicing semantics)
+                if (a or c) and k >= 3:
+                    xk, yk = x_all[:k], y_all[:k]
+                    dk = np.linalg.svd(np.asarray((yk - yk.mean(axis=0)).T @ (xk - xk.mean(axis=0)), dtype=float), compute_uv=False)
+                    if dk[0] > 0 and dk[1] > 1e-3 * dk[0]:
+                        Rh, th, ch = horn(np.asarray(xk, dtype=float), np.asarray(yk, dtype=float), c)
+                        sM = det ** (1.0 / 3.0)
+                        if c and abs(sM / ch - 1.0) > 1e-7 * dk[0] / dk[1]:
+                            ctx.fail(case, "uses-first-n-optimal",
+                                     f"{op}(): recorded scale {sM!r} is not the optimal scale {ch!r} over the first {k} pose pairs")
+                        if a and not o:
+                            s_M, s_h = sse(xk, yk, M[:3, :3] / sM, M[:3, 3], sM), sse(xk, yk, Rh, th, ch)
+                            sc2 = float(((yk - yk.mean(axis=0)) ** 2).sum()) + sM * sM * float(((xk - xk.mean(axis=0)) ** 2).sum())
+                            if s_M > s_h + 1e-9 * sc2:
+                                ctx.fail(case, "uses-first-n-optimal",
+                                         f"{op}(): over the first {k} pose pairs the recorded transformation has squared error "
+                                         f"{s_M:.6e} > optimum {s_h:.6e}")
         elif a or c or o:
             ctx.fail(case, "recorded-matrix-maps-estimate", "no alignment matrix recorded although an alignment was requested")
         else:
@@ -604,6 +640,7 @@ OPEN = ["the Umeyama triple is evo's own (numpy SVD, not modelled): it is certif
 
 def check(ctx):
     lean = core.lean_side(ctx.prop, ctx.tier)
+    core.drift(ctx, MODELLED)
     cases = list(gen_cases(ctx))
     evaluate(ctx, cases)
     need = ["mode-se3", "mode-sim3", "mode-scale", "origin"] + [f"{op}:align={a},scale={c},origin={o}"
